@@ -432,7 +432,7 @@ Lemma model_mirrors_source :
   (Gen_registry.fetch_sub_by, Gen_registry.close_threshold, Gen_registry.fetch_add_by, Gen_registry.closed_mark,
    Gen_registry.init_refs, Gen_registry.guard_dec, Gen_registry.guard_clear_at, Gen_registry.start_inc)
   = (1, 1, 1, 0, 1, 1, 1, 1)%N /\
-  forallb snd Gen_registry.shapes = true /\ length Gen_registry.shapes = 20 /\ Gen_registry.gen_unrecognised = [].
+  forallb snd Gen_registry.shapes = true /\ length Gen_registry.shapes = 21 /\ Gen_registry.gen_unrecognised = [].
 Proof. vm_compute. repeat split. Qed.
 
 (* ---------------------------------------------------------------- the faithful micro-step model, in the variant the source has *)
